@@ -11,12 +11,12 @@ import os
 from cklmon import core
 from cklmon.core import observe
 
-RULE = ("alphabet of 20 commands (define, assign, read, define+call a function reading a session variable, failing "
+RULE = ("alphabet of 23 commands (define, assign, read, define+call a function reading a session variable, failing "
         "expression, multi-statement call failing midway, syntax error, require of a good stateful module, of a missing, "
         "a broken-at-runtime, a broken-syntax and a circular module, loop aborted by an error after updating an "
         "accumulator, require of a module whose file the host writes only later, that host action, a failing call 90 frames deep, script files run from inside a function (one by a relative path) - non-secure "
         "sessions for those -, calls of 700 statements ending in a syntax error / a runtime error); all histories of length <= 3 (quick) / <= 4 (thorough) on one interpreter, all histories <= 2 / "
-        "<= 3 over two interleaved interpreters (40 symbols), all histories <= 2 with one caller-supplied environment passed "
+        "<= 3 over two interleaved interpreters (46 symbols), all histories <= 2 with one caller-supplied environment passed "
         "to every call, random histories to length 30, random histories fed line by line (some commands broken over two "
         "lines) to the interactive host ckl.repl in a child process; each followed by a fixed "
         "probe sequence; a case is one history; non-trivial = it contains a failing command followed by another command; "
@@ -63,6 +63,11 @@ COMMANDS = [
     # kept up to the failure point when its last statement fails at run time
     ("long-script-syntax", "; ".join("def bigs%d = %d" % (i, i) for i in range(700)) + "; x = 111; def = "),
     ("long-script-runtime", "; ".join("def bigr%d = %d" % (i, i) for i in range(700)) + "; nosuch_at_the_end; def bigr_after = 1"),
+    # a class definition that succeeds / one of the same name that fails in a member initialiser (the name keeps what it had);
+    # a loop whose body defines a session variable (also after another loop left its loop variable behind)
+    ("class-def", "def class Shape do def sides = 4; def describe(self) 'shape ' + string(self->sides) end; Shape->sides"),
+    ("class-def-fails", "def class Shape do def sides = 3; def bad = nosuch_name; def other(self) 1 end"),
+    ("loop-def", "for i in [1, 2, 3] do def seen_in_loop = i * 10 end; seen_in_loop"),
 ]
 RUN_FILES = {"defs_file.ckl": "def from_file = 41;\ndef from_file_fn() from_file + 1;\n",
              "failing_file.ckl": "def early = 7;\nerror 'fromfile';\ndef late = 8;\n"}
@@ -70,7 +75,8 @@ NEEDS_OPEN_SESSION = {"run-from-fn", "run-failing-from-fn"}
 N_CORE = 18
 LATE_SRC = "append(LOADLOG, 'late_mod');\ndef v = 77;\n"
 PROBES = ["x", "a1", "b1", "c1", "acc", "f(1)", "good->get()", "good->dbl(4)", "z", "never", "a", "b", "late_mod->v", "from_file", "from_file_fn()",
-          "early", "late", "rec(0)", "bigs0", "bigs699", "bigr0", "bigr699", "bigr_after", "string(LOADLOG)"]
+          "early", "late", "rec(0)", "bigs0", "bigs699", "bigr0", "bigr699", "bigr_after", "Shape->sides", "new(Shape)->describe()", "seen_in_loop",
+          "string(LOADLOG)"]
 ERR = ("error", "'ERROR'")
 
 
@@ -160,6 +166,14 @@ class Model:
             b["loader2"] = True
             b["early"] = 7
             return ("error", "'fromfile'")
+        if name == "class-def":
+            b["Shape"] = True
+            return ("value", "4")
+        if name == "class-def-fails":
+            return ERR
+        if name == "loop-def":
+            b["seen_in_loop"] = 30
+            return ("value", "30")
         if name == "long-script-syntax":
             return ("syntax",)
         if name == "long-script-runtime":
@@ -198,6 +212,12 @@ class Model:
             return ("value", "42") if "from_file_fn" in b else ERR
         if p in ("late", "bigs0", "bigs699", "bigr_after"):
             return ERR
+        if p == "Shape->sides":
+            return ("value", "4") if "Shape" in b else ERR
+        if p == "new(Shape)->describe()":
+            return ("value", "'shape 4'") if "Shape" in b else ERR
+        if p == "seen_in_loop":
+            return ("value", "30") if "seen_in_loop" in b else ERR
         if p in ("bigr0", "bigr699"):
             return ("value", str(b[p])) if p in b else ERR
         if p == "rec(0)":
@@ -262,7 +282,7 @@ def write_modules(moddir, variant=0):
 def residue_kind(name):
     return {"req-missing": "failed-require", "req-broken-rt": "failed-require", "req-broken-syn": "failed-require",
             "req-cyclic": "circular-require", "req-late": "failed-require", "deep-fail": "failed-expression",
-            "run-failing-from-fn": "partial-call", "long-script-syntax": "syntax-error",
+            "run-failing-from-fn": "partial-call", "long-script-syntax": "syntax-error", "class-def-fails": "partial-call",
             "long-script-runtime": "partial-call", "midway": "partial-call", "loop-abort": "partial-call", "fail": "failed-expression",
             "syntax": "syntax-error"}.get(name, "none")
 
